@@ -1312,6 +1312,28 @@ pub fn sem_wait(s: usize) {
     }
 }
 
+/// Release half of a harness hand-over (like the Release decrement of an `Arc` count):
+/// publishes the caller's history on the channel without waking or counting anything.
+pub fn chan_release(s: usize) {
+    sched_point();
+    let rt = rt().expect("chan_release outside execution");
+    let cur = rt.current;
+    rt.threads[cur].clock.0[cur] += 1;
+    let c = rt.threads[cur].clock;
+    rt.sems[s].clock.join(&c);
+    rt.log_sync(OpK::SyncRel, 1_000_000 + s as u32);
+}
+
+/// Acquire half: everything released on the channel so far happens-before the caller.
+pub fn chan_acquire(s: usize) {
+    sched_point();
+    let rt = rt().expect("chan_acquire outside execution");
+    let cur = rt.current;
+    let c = rt.sems[s].clock;
+    rt.threads[cur].clock.join(&c);
+    rt.log_sync(OpK::SyncAcq, 1_000_000 + s as u32);
+}
+
 pub fn sem_try_wait(s: usize) -> bool {
     sched_point();
     let rt = rt().expect("sem_try_wait outside execution");
